@@ -28,6 +28,9 @@ const ModelBudget = 40000
 // hangReported: a non-terminating run was reported by Judge in this process.
 var hangReported bool
 
+// lateTimeouts counts the programs that did not terminate within 2 s after a hang was reported.
+var lateTimeouts int
+
 // canonTrace sorts maximal runs of entries produced by probes with negative ids
 // (multi-entry map loops: iteration order is unspecified).
 func canonTrace(tr []string) []string {
@@ -65,8 +68,15 @@ func Judge(stmts []*N) *Verdict {
 	if hangReported {
 		first = 2 * time.Second
 	}
+	if hangReported && lateTimeouts > 10 {
+		// the change under test makes many programs hang: the hang is reported, every further one would
+		// cost seconds without telling anything new
+		v.Excluded = "not run: a hang was reported in this process and more than 10 later programs did not terminate either"
+		return v
+	}
 	val, err, timedOut := host.ExecTimeout(v.Src, first)
 	if timedOut && hangReported {
+		lateTimeouts++
 		v.Excluded = "did not terminate within 2 s (a hang was already reported in this process)"
 		return v
 	}
